@@ -128,6 +128,8 @@ pub fn grammar(max_n: usize) -> Grammar {
     leaves.push(Stmt::Assign("x".into(), Expr::s("?")));
     leaves.push(Stmt::Assign("y".into(), Expr::s("?")));
     leaves.push(Stmt::Incr("c".into()));
+    // a counter whose name is also probed inside the partials: render must hide it, include shares it
+    leaves.push(Stmt::Incr("x".into()));
     leaves.push(Stmt::Cycle(None, vec![Expr::s("a"), Expr::s("b")]));
     let compounds: Vec<Wrap> = vec![
         Box::new(|b| for_("x", Src::Range(Expr::int(1), Expr::int(2)), b)),
